@@ -211,4 +211,549 @@ theorem batchAppendTo_length (crc : Bytes → Nat) (comp : Option Compressor) (b
     simp only [batchLength] at hb
     omega
 
+/-! ## request accounting in closed form -/
+
+/-- the batch length `tryAddBatch` uses at produce version `pv` -/
+def bwl (pv : Int) (b : Batch) : Int := (wireLengthForProduceVersion b pv).1
+
+theorem wlfpv_flexible (b : Batch) (pv : Int) : (wireLengthForProduceVersion b pv).2.1 = decide (pv ≥ 9) := by
+  unfold wireLengthForProduceVersion
+  by_cases h0 : pv < 0
+  · simp [h0]; omega
+  · by_cases h1 : pv = 0 ∨ pv = 1
+    · simp [h0, h1]; omega
+    · by_cases h2 : pv = 2
+      · simp [h2]
+      · by_cases h3 : pv ≤ 8
+        · simp [h0, h1, h2, h3]; omega
+        · simp [h0, h1, h2, h3]; omega
+
+theorem wlfpv_topicIDs (b : Batch) (pv : Int) : (wireLengthForProduceVersion b pv).2.2 = decide (pv ≥ 13) := by
+  unfold wireLengthForProduceVersion
+  by_cases h0 : pv < 0
+  · simp [h0]; omega
+  · by_cases h1 : pv = 0 ∨ pv = 1
+    · simp [h0, h1]; omega
+    · by_cases h2 : pv = 2
+      · simp [h2]
+      · by_cases h3 : pv ≤ 8
+        · simp [h0, h1, h2, h3]; omega
+        · simp [h0, h1, h2, h3]
+
+def topicOverhead (pv : Int) (topic : Bytes) : Int :=
+  if pv ≥ 13 then 16 + 1 else if pv ≥ 9 then uvarlen topic.length + topic.length + 1 else 2 + topic.length + 4
+
+def partsAcct (pv : Int) : List PartBatch → Int
+  | [] => 0
+  | p :: ps => 4 + bwl pv p.batch + partsAcct pv ps
+
+def topicAcct (pv : Int) (t : TopicBatches) : Int :=
+  topicOverhead pv t.topic + (if pv ≥ 9 then uvarlen t.parts.length - 1 else 0) + partsAcct pv t.parts
+
+def topicsAcct (pv : Int) : List TopicBatches → Int
+  | [] => 0
+  | t :: ts => topicAcct pv t + topicsAcct pv ts
+
+theorem partsAcct_snoc (pv : Int) (l : List PartBatch) (x : PartBatch) :
+    partsAcct pv (l ++ [x]) = partsAcct pv l + (4 + bwl pv x.batch) := by
+  induction l with
+  | nil => simp [partsAcct]
+  | cons a l ih => simp [partsAcct, ih]; omega
+
+theorem uvarlen_one : uvarlen 1 = 1 := by
+  have : lenU 2 = 1 := Proof.C17.lenU_lt (by omega)
+  simp [uvarlen, uvarintLen, uvar32, this]
+
+theorem tryAddBatchLength_eq (pv : Int) (topic : Bytes) (existing : Option Nat) (b : Batch) :
+    tryAddBatchLength pv topic existing b =
+      4 + bwl pv b + (match existing with
+        | none => topicOverhead pv topic
+        | some n => if pv ≥ 9 then uvarlen (n + 1) - uvarlen n else 0) := by
+  have hf := wlfpv_flexible b pv
+  have ht := wlfpv_topicIDs b pv
+  unfold tryAddBatchLength bwl topicOverhead
+  rcases hw : wireLengthForProduceVersion b pv with ⟨w, fl, ti⟩
+  rw [hw] at hf ht
+  simp only at hf ht ⊢
+  subst hf ht
+  cases existing with
+  | none =>
+    simp only
+    by_cases h13 : pv ≥ 13
+    · simp [h13]; omega
+    · by_cases h9 : pv ≥ 9
+      · simp [h13, h9]; omega
+      · simp [h13, h9]; omega
+  | some n =>
+    simp only
+    by_cases h9 : pv ≥ 9
+    · simp [h9]; omega
+    · simp [h9]; omega
+
+/-- `addBatch` adds to the closed form exactly what `tryAddBatch` adds to `p.wireLength` -/
+theorem addBatch_acct (pv : Int) (ts : List TopicBatches) (topic topicID : Bytes) (pb : PartBatch) :
+    topicsAcct pv (addBatch ts topic topicID pb) =
+      topicsAcct pv ts + tryAddBatchLength pv topic (findParts ts topic) pb.batch := by
+  rw [tryAddBatchLength_eq]
+  induction ts with
+  | nil =>
+    simp [addBatch, findParts, topicsAcct, topicAcct, partsAcct, uvarlen_one]
+    omega
+  | cons t rest ih =>
+    unfold addBatch findParts
+    by_cases ht : t.topic = topic
+    · simp only [ht, if_true, topicsAcct, topicAcct, partsAcct_snoc, List.length_append, List.length_cons, List.length_nil]
+      by_cases h9 : pv ≥ 9
+      · simp [h9]; omega
+      · simp [h9]; omega
+    · simp only [ht, if_false, topicsAcct]
+      rw [ih]; omega
+
+/-- the accounting invariant of `createReq`: `p.wireLength` is the base length plus the closed form -/
+def ReqInv (c : Cfg) (pv : Int) (p : ReqState) : Prop :=
+  p.wireLength = baseProduceRequestLength c + topicsAcct pv p.batches
+
+theorem tryAddBatch_inv (c : Cfg) (limit pv : Int) (p p' : ReqState) (topic topicID : Bytes) (pb : PartBatch)
+    (hp : ReqInv c pv p) (h : tryAddBatch limit pv p topic topicID pb = some p') :
+    ReqInv c pv p' ∧ p'.wireLength ≤ limit := by
+  unfold tryAddBatch at h
+  simp only at h
+  split at h
+  · simp at h
+  · rename_i hle
+    simp only [Option.some.injEq] at h
+    subst h
+    refine ⟨?_, by simp only; omega⟩
+    unfold ReqInv at hp ⊢
+    simp only
+    rw [addBatch_acct, hp]; omega
+
+theorem createReqPass_inv (c : Cfg) (limit pv : Int) (p : ReqState) (rbs : List RecBuf)
+    (hp : ReqInv c pv p) (hl : p.batches ≠ [] → p.wireLength ≤ limit) :
+    ReqInv c pv (createReqPass limit pv p rbs).1 ∧
+      ((createReqPass limit pv p rbs).1.batches ≠ [] → (createReqPass limit pv p rbs).1.wireLength ≤ limit) := by
+  induction rbs generalizing p with
+  | nil => simpa [createReqPass] using ⟨hp, hl⟩
+  | cons rb rest ih =>
+    unfold createReqPass
+    cases hpend : rb.pending with
+    | nil => simpa using ih p hp hl
+    | cons b more =>
+      simp only
+      cases hadd : tryAddBatch limit pv p rb.topic rb.topicID ⟨rb.partition, rb.seq, b⟩ with
+      | none => simpa using ih p hp hl
+      | some p1 =>
+        have h1 := tryAddBatch_inv c limit pv p p1 _ _ _ hp hadd
+        simpa using ih p1 h1.1 (fun _ => h1.2)
+
+/-- **`createReq` accounting**: the request `createReq` builds has `wireLength = base + closed form`, and when
+it holds any batch that number is at most `BrokerMaxWriteBytes` -/
+theorem createReq_inv (c : Cfg) (pv : Int) (start : Nat) (rbs : List RecBuf) :
+    ReqInv c pv (createReq c pv start rbs).1 ∧
+      ((createReq c pv start rbs).1.batches ≠ [] → (createReq c pv start rbs).1.wireLength ≤ c.maxBrokerWriteBytes) := by
+  unfold createReq
+  simp only
+  have := createReqPass_inv c c.maxBrokerWriteBytes pv
+    { wireLength := baseProduceRequestLength c, batches := [] } (rotate rbs start)
+    (by simp [ReqInv, topicsAcct]) (by simp)
+  rcases h : createReqPass c.maxBrokerWriteBytes pv { wireLength := baseProduceRequestLength c, batches := [] } (rotate rbs start) with ⟨p, rot⟩
+  rw [h] at this
+  simpa using this
+
+/-! ## encoded length of a request against the accounting (record batches, Produce v3+) -/
+
+def PartsInv : List PartBatch → Prop
+  | [] => True
+  | p :: ps => BatchInv p.batch ∧ PartsInv ps
+
+/-- every batch satisfies the batch invariant, topic ids are 16 bytes -/
+def TopicsInv : List TopicBatches → Prop
+  | [] => True
+  | t :: ts => PartsInv t.parts ∧ t.topicID.length = 16 ∧ TopicsInv ts
+
+def totalParts : List TopicBatches → Nat
+  | [] => 0
+  | t :: ts => t.parts.length + totalParts ts
+
+theorem savingsOf_none (b : PartBatch) (v : Int) : savingsOf none b v = 0 := rfl
+
+theorem wireSum_nonneg_batchLength (b : Batch) (h : BatchInv b) : 61 ≤ batchLength b := by
+  have := h.wire; simp only [recordBatchOverhead] at this; simp only [batchLength]; omega
+
+theorem uvarintLen_mono (a b : Nat) (h : a ≤ b) : uvarintLen a ≤ uvarintLen b := lenU_mono b a h
+
+theorem partAppendTo_le (e : Env) (v pid ep : Int) (tx : Bool) (pb : PartBatch) (hv : 3 ≤ v)
+    (h : BatchInv pb.batch) :
+    ((partAppendTo e v pid ep tx pb).length : Int) ≤ 4 + bwl v pb.batch + (if v ≥ 9 then 1 else 0) := by
+  have hb := batchAppendTo_length e.crc32c e.comp pb v pid ep tx h
+  have hlt : ¬ v < 3 := by omega
+  unfold partAppendTo
+  simp only [hlt, if_false, List.length_append, beI_length, Int.natCast_add, hb]
+  unfold bwl wireLengthForProduceVersion
+  have hsv : (0 : Int) ≤ savingsOf e.comp pb v := Int.natCast_nonneg _
+  by_cases h9 : v ≥ 9
+  · have h0 : ¬ v < 0 := by omega
+    have h1 : ¬ (v = 0 ∨ v = 1) := by omega
+    have h2 : ¬ v = 2 := by omega
+    have h8 : ¬ v ≤ 8 := by omega
+    simp only [h9, h0, h1, h2, h8, if_true, if_false, flexibleWireLength, List.length_cons, List.length_nil]
+    have hm := uvarintLen_mono (uvar32 (batchLength pb.batch - savingsOf e.comp pb v)) (uvar32 (batchLength pb.batch))
+      (by simp only [uvar32]; omega)
+    omega
+  · have h0 : ¬ v < 0 := by omega
+    have h1 : ¬ (v = 0 ∨ v = 1) := by omega
+    have h2 : ¬ v = 2 := by omega
+    have h8 : v ≤ 8 := by omega
+    simp only [h9, h0, h1, h2, h8, if_true, if_false, List.length_nil]
+    omega
+
+theorem partsAppendTo_le (e : Env) (v pid ep : Int) (tx : Bool) (ps : List PartBatch) (hv : 3 ≤ v)
+    (h : PartsInv ps) :
+    ((partsAppendTo e v pid ep tx ps).length : Int) ≤ partsAcct v ps + (if v ≥ 9 then (ps.length : Int) else 0) := by
+  induction ps with
+  | nil => simp [partsAppendTo, partsAcct]
+  | cons p ps ih =>
+    have h1 := partAppendTo_le e v pid ep tx p hv h.1
+    have h2 := ih h.2
+    simp only [partsAppendTo, partsAcct, List.length_append, List.length_cons, Int.natCast_add]
+    by_cases h9 : v ≥ 9
+    · simp only [h9, if_true] at h1 h2 ⊢; omega
+    · simp only [h9, if_false] at h1 h2 ⊢; omega
+
+theorem topicAppendTo_le (e : Env) (v pid ep : Int) (tx : Bool) (t : TopicBatches) (hv : 3 ≤ v)
+    (h : PartsInv t.parts) (hid : t.topicID.length = 16) :
+    ((topicAppendTo e v pid ep tx t).length : Int) ≤ topicAcct v t + (if v ≥ 9 then (t.parts.length : Int) + 1 else 0) := by
+  have hp := partsAppendTo_le e v pid ep tx t.parts hv h
+  unfold topicAppendTo topicAcct topicOverhead
+  by_cases h13 : v ≥ 13
+  · have h9 : v ≥ 9 := by omega
+    simp only [h13, h9, if_true, List.length_append, compactArrayLen, uvarint_length, hid, Int.natCast_add,
+      List.length_cons, List.length_nil, uvarlen, uvar32] at hp ⊢
+    have : (1 + (t.parts.length : Int)).toNat = 1 + t.parts.length := by omega
+    rw [this]; omega
+  · by_cases h9 : v ≥ 9
+    · simp only [h13, h9, if_true, if_false, List.length_append, compactArrayLen, compactString_length, uvarint_length,
+        Int.natCast_add, List.length_cons, List.length_nil, uvarlen, uvar32] at hp ⊢
+      have e1 : (1 + (t.parts.length : Int)).toNat = 1 + t.parts.length := by omega
+      have e2 : (1 + (t.topic.length : Int)).toNat = 1 + t.topic.length := by omega
+      rw [e1, e2]; omega
+    · simp only [h13, h9, if_false, List.length_append, arrayLen, string16_length, beI_length, Int.natCast_add,
+        List.length_nil] at hp ⊢
+      omega
+
+theorem topicsAppendTo_le (e : Env) (v pid ep : Int) (tx : Bool) (ts : List TopicBatches) (hv : 3 ≤ v)
+    (h : TopicsInv ts) :
+    ((topicsAppendTo e v pid ep tx ts).length : Int) ≤
+      topicsAcct v ts + (if v ≥ 9 then (totalParts ts : Int) + ts.length else 0) := by
+  induction ts with
+  | nil => simp [topicsAppendTo, topicsAcct, totalParts]
+  | cons t ts ih =>
+    have h1 := topicAppendTo_le e v pid ep tx t hv h.1 h.2.1
+    have h2 := ih h.2.2
+    simp only [topicsAppendTo, topicsAcct, totalParts, List.length_append, List.length_cons, Int.natCast_add]
+    by_cases h9 : v ≥ 9
+    · simp only [h9, if_true] at h1 h2 ⊢; omega
+    · simp only [h9, if_false] at h1 h2 ⊢; omega
+
+theorem partAppendTo_eq (e : Env) (v pid ep : Int) (tx : Bool) (pb : PartBatch) (hv : 3 ≤ v) (hc : e.comp = none)
+    (h : BatchInv pb.batch) :
+    ((partAppendTo e v pid ep tx pb).length : Int) = 4 + bwl v pb.batch + (if v ≥ 9 then 1 else 0) := by
+  have hb := batchAppendTo_length e.crc32c e.comp pb v pid ep tx h
+  have hlt : ¬ v < 3 := by omega
+  unfold partAppendTo
+  simp only [hlt, if_false, List.length_append, beI_length, Int.natCast_add, hb]
+  unfold bwl wireLengthForProduceVersion
+  have hsv : savingsOf e.comp pb v = 0 := by rw [hc]; rfl
+  by_cases h9 : v ≥ 9
+  · have h0 : ¬ v < 0 := by omega
+    have h1 : ¬ (v = 0 ∨ v = 1) := by omega
+    have h2 : ¬ v = 2 := by omega
+    have h8 : ¬ v ≤ 8 := by omega
+    simp only [h9, h0, h1, h2, h8, if_true, if_false, flexibleWireLength, List.length_cons, List.length_nil]
+    simp only [hsv, Int.natCast_zero, Int.sub_zero]; omega
+  · have h0 : ¬ v < 0 := by omega
+    have h1 : ¬ (v = 0 ∨ v = 1) := by omega
+    have h2 : ¬ v = 2 := by omega
+    have h8 : v ≤ 8 := by omega
+    simp only [h9, h0, h1, h2, h8, if_true, if_false, List.length_nil]
+    simp only [hsv, Int.natCast_zero, Int.sub_zero]; omega
+
+theorem partsAppendTo_eq (e : Env) (v pid ep : Int) (tx : Bool) (ps : List PartBatch) (hv : 3 ≤ v) (hc : e.comp = none)
+    (h : PartsInv ps) :
+    ((partsAppendTo e v pid ep tx ps).length : Int) = partsAcct v ps + (if v ≥ 9 then (ps.length : Int) else 0) := by
+  induction ps with
+  | nil => simp [partsAppendTo, partsAcct]
+  | cons p ps ih =>
+    have h1 := partAppendTo_eq e v pid ep tx p hv hc h.1
+    have h2 := ih h.2
+    simp only [partsAppendTo, partsAcct, List.length_append, List.length_cons, Int.natCast_add]
+    by_cases h9 : v ≥ 9
+    · simp only [h9, if_true] at h1 h2 ⊢; omega
+    · simp only [h9, if_false] at h1 h2 ⊢; omega
+
+theorem topicAppendTo_eq (e : Env) (v pid ep : Int) (tx : Bool) (t : TopicBatches) (hv : 3 ≤ v) (hc : e.comp = none)
+    (h : PartsInv t.parts) (hid : t.topicID.length = 16) :
+    ((topicAppendTo e v pid ep tx t).length : Int) = topicAcct v t + (if v ≥ 9 then (t.parts.length : Int) + 1 else 0) := by
+  have hp := partsAppendTo_eq e v pid ep tx t.parts hv hc h
+  unfold topicAppendTo topicAcct topicOverhead
+  by_cases h13 : v ≥ 13
+  · have h9 : v ≥ 9 := by omega
+    simp only [h13, h9, if_true, List.length_append, compactArrayLen, uvarint_length, hid, Int.natCast_add,
+      List.length_cons, List.length_nil, uvarlen, uvar32] at hp ⊢
+    have : (1 + (t.parts.length : Int)).toNat = 1 + t.parts.length := by omega
+    rw [this]; omega
+  · by_cases h9 : v ≥ 9
+    · simp only [h13, h9, if_true, if_false, List.length_append, compactArrayLen, compactString_length, uvarint_length,
+        Int.natCast_add, List.length_cons, List.length_nil, uvarlen, uvar32] at hp ⊢
+      have e1 : (1 + (t.parts.length : Int)).toNat = 1 + t.parts.length := by omega
+      have e2 : (1 + (t.topic.length : Int)).toNat = 1 + t.topic.length := by omega
+      rw [e1, e2]; omega
+    · simp only [h13, h9, if_false, List.length_append, arrayLen, string16_length, beI_length, Int.natCast_add,
+        List.length_nil] at hp ⊢
+      omega
+
+theorem topicsAppendTo_eq (e : Env) (v pid ep : Int) (tx : Bool) (ts : List TopicBatches) (hv : 3 ≤ v) (hc : e.comp = none)
+    (h : TopicsInv ts) :
+    ((topicsAppendTo e v pid ep tx ts).length : Int) =
+      topicsAcct v ts + (if v ≥ 9 then (totalParts ts : Int) + ts.length else 0) := by
+  induction ts with
+  | nil => simp [topicsAppendTo, topicsAcct, totalParts]
+  | cons t ts ih =>
+    have h1 := topicAppendTo_eq e v pid ep tx t hv hc h.1 h.2.1
+    have h2 := ih h.2.2
+    simp only [topicsAppendTo, topicsAcct, totalParts, List.length_append, List.length_cons, Int.natCast_add]
+    by_cases h9 : v ≥ 9
+    · simp only [h9, if_true] at h1 h2 ⊢; omega
+    · simp only [h9, if_false] at h1 h2 ⊢; omega
+
+/-! ## the whole frame -/
+
+theorem appendRequest_le_nonflex (e : Env) (c : Cfg) (v corr pid ep : Int) (ts : List TopicBatches)
+    (hv : 3 ≤ v) (h8 : v ≤ 8) (h : TopicsInv ts) :
+    ((appendRequest e c v corr pid ep ts).length : Int) ≤ baseProduceRequestLength c + topicsAcct v ts := by
+  have ht := topicsAppendTo_le e v pid ep c.txnId.isSome ts hv h
+  have h9 : ¬ v ≥ 9 := by omega
+  have h3 : v ≥ 3 := hv
+  unfold appendRequest requestAppendTo baseProduceRequestLength
+  simp only [h9, h3, if_true, if_false, List.length_append, beI_length, nullableString_length, arrayLen,
+    List.length_nil, Int.natCast_add] at ht ⊢
+  omega
+
+theorem appendRequest_eq_nonflex (e : Env) (c : Cfg) (v corr pid ep : Int) (ts : List TopicBatches)
+    (hv : 3 ≤ v) (h8 : v ≤ 8) (hc : e.comp = none) (h : TopicsInv ts) :
+    ((appendRequest e c v corr pid ep ts).length : Int) = baseProduceRequestLength c + topicsAcct v ts := by
+  have ht := topicsAppendTo_eq e v pid ep c.txnId.isSome ts hv hc h
+  have h9 : ¬ v ≥ 9 := by omega
+  have h3 : v ≥ 3 := hv
+  unfold appendRequest requestAppendTo baseProduceRequestLength
+  simp only [h9, h3, if_true, if_false, List.length_append, beI_length, nullableString_length, arrayLen,
+    List.length_nil, Int.natCast_add] at ht ⊢
+  omega
+
+theorem compactNullableString_length_le (s : Option Bytes) (h : blen s ≤ 16382) :
+    (compactNullableString s).length ≤ 2 + blen s := by
+  cases s with
+  | none =>
+    have : lenU 0 = 1 := Proof.C17.lenU_lt (by omega)
+    simp [compactNullableString, uvarintLen, blen, this]
+  | some b =>
+    simp only [blen] at h
+    have := Proof.C17.lenU_le 2 (1 + b.length) (by omega) (by omega)
+    simp only [compactNullableString, compactString_length, uvarintLen, blen]; omega
+
+/-- flexible versions: what is written exceeds the accounting by at most `topics + partitions - 2`
+plus the growth of the compact topic-array length -/
+theorem appendRequest_le_flex (e : Env) (c : Cfg) (v corr pid ep : Int) (ts : List TopicBatches)
+    (hv : 9 ≤ v) (htxn : blen c.txnId ≤ 16382) (h : TopicsInv ts) :
+    ((appendRequest e c v corr pid ep ts).length : Int) + 2 ≤
+      baseProduceRequestLength c + topicsAcct v ts + totalParts ts + ts.length + uvarintLen (1 + ts.length) := by
+  have ht := topicsAppendTo_le e v pid ep c.txnId.isSome ts (by omega) h
+  have htx := compactNullableString_length_le c.txnId htxn
+  have h9 : v ≥ 9 := hv
+  have h3 : v ≥ 3 := by omega
+  unfold appendRequest requestAppendTo baseProduceRequestLength
+  simp only [h9, h3, if_true, List.length_append, beI_length, nullableString_length, compactArrayLen, uvarint_length,
+    List.length_cons, List.length_nil, Int.natCast_add] at ht ⊢
+  omega
+
+/-- flexible versions, no compression, no transactional id: the exact excess -/
+theorem appendRequest_eq_flex (e : Env) (c : Cfg) (v corr pid ep : Int) (ts : List TopicBatches)
+    (hv : 9 ≤ v) (hc : e.comp = none) (htxn : c.txnId = none) (h : TopicsInv ts) :
+    ((appendRequest e c v corr pid ep ts).length : Int) + 3 =
+      baseProduceRequestLength c + topicsAcct v ts + totalParts ts + ts.length + uvarintLen (1 + ts.length) := by
+  have ht := topicsAppendTo_eq e v pid ep c.txnId.isSome ts (by omega) hc h
+  have h9 : v ≥ 9 := hv
+  have h3 : v ≥ 3 := by omega
+  have l0 : lenU 0 = 1 := Proof.C17.lenU_lt (by omega)
+  unfold appendRequest requestAppendTo baseProduceRequestLength
+  simp only [h9, h3, htxn, if_true, List.length_append, beI_length, nullableString_length, compactArrayLen, uvarint_length,
+    compactNullableString, uvarintLen, l0, blen, List.length_cons, List.length_nil, Int.natCast_add] at ht ⊢
+  omega
+
+/-! ## from the partition buffers to the request: the invariants travel with the batches -/
+
+def RbInv (rb : RecBuf) : Prop := (∀ b ∈ rb.pending, BatchInv b) ∧ rb.topicID.length = 16
+
+theorem partsInv_snoc (l : List PartBatch) (x : PartBatch) (hl : PartsInv l) (hx : BatchInv x.batch) : PartsInv (l ++ [x]) := by
+  induction l with
+  | nil => exact ⟨hx, trivial⟩
+  | cons a l ih => exact ⟨hl.1, ih hl.2⟩
+
+theorem addBatch_topicsInv (ts : List TopicBatches) (topic topicID : Bytes) (pb : PartBatch)
+    (h : TopicsInv ts) (hb : BatchInv pb.batch) (hid : topicID.length = 16) : TopicsInv (addBatch ts topic topicID pb) := by
+  induction ts with
+  | nil => exact ⟨⟨hb, trivial⟩, hid, trivial⟩
+  | cons t rest ih =>
+    unfold addBatch
+    by_cases ht : t.topic = topic
+    · simp only [ht, if_true]; exact ⟨partsInv_snoc _ _ h.1 hb, h.2.1, h.2.2⟩
+    · simp only [ht, if_false]; exact ⟨h.1, h.2.1, ih h.2.2⟩
+
+theorem createReqPass_topicsInv (limit pv : Int) (p : ReqState) (rbs : List RecBuf)
+    (hp : TopicsInv p.batches) (hr : ∀ rb ∈ rbs, RbInv rb) : TopicsInv (createReqPass limit pv p rbs).1.batches := by
+  induction rbs generalizing p with
+  | nil => simpa [createReqPass] using hp
+  | cons rb rest ih =>
+    have hrest : ∀ r ∈ rest, RbInv r := fun r hr' => hr r (List.mem_cons_of_mem _ hr')
+    have hrb := hr rb (List.mem_cons_self ..)
+    unfold createReqPass
+    cases hpend : rb.pending with
+    | nil => simpa using ih p hp hrest
+    | cons b more =>
+      simp only
+      cases hadd : tryAddBatch limit pv p rb.topic rb.topicID ⟨rb.partition, rb.seq, b⟩ with
+      | none => simpa using ih p hp hrest
+      | some p1 =>
+        have hb : BatchInv b := hrb.1 b (by rw [hpend]; exact List.mem_cons_self ..)
+        have h1 : TopicsInv p1.batches := by
+          unfold tryAddBatch at hadd
+          simp only at hadd
+          split at hadd
+          · simp at hadd
+          · simp only [Option.some.injEq] at hadd
+            subst hadd
+            exact addBatch_topicsInv _ _ _ _ hp hb hrb.2
+        simpa using ih p1 h1 hrest
+
+theorem mem_rotate {α : Type} (xs : List α) (k : Nat) (x : α) (h : x ∈ rotate xs k) : x ∈ xs := by
+  unfold rotate at h
+  split at h
+  · exact h
+  · rcases List.mem_append.1 h with h | h
+    · exact List.mem_of_mem_drop h
+    · exact List.mem_of_mem_take h
+
+theorem createReq_topicsInv (c : Cfg) (pv : Int) (start : Nat) (rbs : List RecBuf) (hr : ∀ rb ∈ rbs, RbInv rb) :
+    TopicsInv (createReq c pv start rbs).1.batches := by
+  unfold createReq
+  simp only
+  have := createReqPass_topicsInv c.maxBrokerWriteBytes pv
+    { wireLength := baseProduceRequestLength c, batches := [] } (rotate rbs start) trivial
+    (fun rb h => hr rb (mem_rotate _ _ _ h))
+  rcases h : createReqPass c.maxBrokerWriteBytes pv { wireLength := baseProduceRequestLength c, batches := [] } (rotate rbs start) with ⟨p, rot⟩
+  rw [h] at this
+  simpa using this
+
+/-! ## buffering: invariant and size bound of every batch -/
+
+/-- record-batch accounting is in force: the version is unknown or at least 3 -/
+def V2Acct (pv : Int) : Prop := pv < 0 ∨ 3 ≤ pv
+
+theorem bwl_ge (pv : Int) (b : Batch) (hpv : V2Acct pv) : batchLength b + 1 ≤ bwl pv b := by
+  have hu := uvarintLen_pos (uvar32 (batchLength b))
+  unfold bwl wireLengthForProduceVersion
+  by_cases h0 : pv < 0
+  · simp only [h0, if_true]
+    simp only [batchLength, flexibleWireLength] at hu ⊢
+    split <;> split <;> omega
+  · have h3 : 3 ≤ pv := by cases hpv <;> omega
+    have h1 : ¬ (pv = 0 ∨ pv = 1) := by omega
+    have h2 : ¬ pv = 2 := by omega
+    simp only [h0, h1, h2, if_false]
+    by_cases h8 : pv ≤ 8
+    · simp only [h8, if_true, batchLength]; omega
+    · simp only [h8, if_false, flexibleWireLength]; omega
+
+/-- a batch accepted by `tryBuffer` under record-batch accounting is, without its length prefix, smaller than the limit -/
+theorem tryBuffer_bound (b b' : Batch) (r : Rec) (pv m : Int) (hpv : V2Acct pv)
+    (h : tryBuffer b r pv m = some b') : batchLength b' + 1 ≤ m ∧ b'.records ≠ [] := by
+  have hg := bwl_ge pv b hpv
+  unfold tryBuffer at h
+  simp only at h
+  split at h
+  · simp at h
+  · rename_i hle
+    simp only [Option.some.injEq] at h
+    subst h
+    simp only [bwl] at hg
+    refine ⟨?_, by simp [appendRecord]⟩
+    simp only [appendRecord, batchLength] at hg ⊢
+    omega
+
+/-- what holds of every buffered batch -/
+def Buffered (pv m : Int) (b : Batch) : Prop := BatchInv b ∧ b.records ≠ [] ∧ (V2Acct pv → batchLength b + 1 ≤ m)
+
+theorem bufferRecord_buffered (bs : List Batch) (r : Rec) (pv m : Int) (h : ∀ b ∈ bs, Buffered pv m b) :
+    ∀ b ∈ (bufferRecord bs r pv m).1, Buffered pv m b := by
+  have hnew : ∀ nb, tryBuffer newRecordBatch r pv m = some nb → Buffered pv m nb := fun nb hnb =>
+    ⟨tryBuffer_inv _ _ _ _ _ inv_new hnb,
+     by unfold tryBuffer at hnb; simp only at hnb; split at hnb <;> simp at hnb; subst hnb; simp [appendRecord],
+     fun hpv => (tryBuffer_bound _ _ _ _ _ hpv hnb).1⟩
+  unfold bufferRecord
+  simp only
+  cases bs with
+  | nil =>
+    simp only
+    cases hn : tryBuffer newRecordBatch r pv m with
+    | none => simpa using h
+    | some nb =>
+      intro b hb
+      simp only [List.mem_cons, List.not_mem_nil, or_false] at hb
+      subst hb; exact hnew _ hn
+  | cons last rest =>
+    simp only
+    cases hl : tryBuffer last r pv m with
+    | some b' =>
+      intro b hb
+      rcases List.mem_cons.1 hb with hb | hb
+      · subst hb
+        have hlast := h last (List.mem_cons_self ..)
+        exact ⟨tryBuffer_inv _ _ _ _ _ hlast.1 hl,
+          by unfold tryBuffer at hl; simp only at hl; split at hl <;> simp at hl; subst hl; simp [appendRecord],
+          fun hpv => (tryBuffer_bound _ _ _ _ _ hpv hl).1⟩
+      · exact h b (List.mem_cons_of_mem _ hb)
+    | none =>
+      simp only
+      cases hn : tryBuffer newRecordBatch r pv m with
+      | none => simpa using h
+      | some nb =>
+        intro b hb
+        rcases List.mem_cons.1 hb with hb | hb
+        · subst hb; exact hnew _ hn
+        · exact h b hb
+
+theorem bufferAll_buffered (pv m : Int) (rs : List Rec) (bs : List Batch) (h : ∀ b ∈ bs, Buffered pv m b) :
+    ∀ b ∈ (bufferAll pv m bs rs).1, Buffered pv m b := by
+  induction rs generalizing bs with
+  | nil => simpa [bufferAll] using h
+  | cons r rs ih =>
+    unfold bufferAll
+    rcases hb : bufferRecord bs r pv m with ⟨bs', ok⟩
+    have h' := bufferRecord_buffered bs r pv m h
+    rw [hb] at h'
+    simp only
+    rcases hr : bufferAll pv m bs' rs with ⟨bs'', idx⟩
+    have := ih bs' h'
+    rw [hr] at this
+    simpa using this
+
+/-! ## a few concrete LEB128 lengths (for the counterexample) -/
+theorem l0 : lenU 0 = 1 := Proof.C17.lenU_lt (by omega)
+theorem l62 : lenU 62 = 1 := Proof.C17.lenU_lt (by omega)
+theorem l2 : lenU 2 = 1 := Proof.C17.lenU_lt (by omega)
+theorem l3 : lenU 3 = 1 := Proof.C17.lenU_lt (by omega)
+theorem l826 : lenU 826 = 2 := by rw [Proof.C17.lenU_ge (by omega), Proof.C17.lenU_lt (by omega)]
+theorem l840 : lenU 840 = 2 := by rw [Proof.C17.lenU_ge (by omega), Proof.C17.lenU_lt (by omega)]
+theorem l484 : lenU 484 = 2 := by rw [Proof.C17.lenU_ge (by omega), Proof.C17.lenU_lt (by omega)]
+
 end Proof.C18
